@@ -138,6 +138,9 @@ def obligations(tier):
     for a, b, fa, fb in (('latin_1', 'cp500', False, True), ('cp500', 'latin_1', True, True)):
         obs.append(Ob('mci_ipm_encode/%s-%s/%s-%s/long-record' % (a, b, fmt(fa), fmt(fb)), ipm_convert('mci_ipm_encode', a, b, fa, fb, 1, shapes=LONG19, maxvar=None), 1800,
                       'one long record (elements %s, every length up to 999 each: records up to ~3000 bytes spanning several blocks)' % LONG19, _funcs))
+    for a, b in (('cp500', 'latin_1'), ('latin_1', 'cp500')):
+        obs.append(Ob('mideu-convert/%s-%s/vbs/full-pds-carrier' % (a, b), ipm_convert('mideu', a, b, False, False, 1, shapes=[[3, 48]], maxvar=992), 900,
+                      'legacy converter, DE48 given as one raw PDS sub-element of 0..992 characters (carrier of up to exactly 999)', _funcs))
     obs.append(Ob('mideu-convert/cp500-latin_1/1014/long-record', ipm_convert('mideu', 'cp500', 'latin_1', True, True, 1, shapes=LONG19[:1], maxvar=None), 1800,
                   'legacy converter, one long record', _funcs))
     obs.append(Ob('mci_ipm_encode/cp500-latin_1/1014-1014/2rec', ipm_convert('mci_ipm_encode', 'cp500', 'latin_1', True, True, 2, shapes=SHAPES19[:3], maxvar=200), 1800,
